@@ -4,6 +4,7 @@ import (
 	"fmt"
 
 	"github.com/olive-io/bpmn/schema"
+	bpmn "github.com/olive-io/bpmn/v2"
 	"github.com/olive-io/bpmn/v2/verifrt"
 
 	"verif/harness/h"
@@ -31,6 +32,9 @@ type EventLock struct {
 	AllowEvent func(m *Model, ev EventDef) bool
 	// CompletesShape refines the signature of the completion clause.
 	CompletesShape func(m *Model) string
+	// Results, if set, gives the result fields an answer carries: visit counts the earlier
+	// answers to the same activity.
+	Results func(visit int, id string) map[string]any
 	// Hook runs after the final checks.
 	AfterFinal func(r *Run, m *Model, history []string)
 	Tags       string
@@ -62,6 +66,7 @@ func (el *EventLock) Body() func() {
 		var history []string
 		var sent []*delivery
 		count := map[int]int{}
+		visits := map[string]int{}
 		dump := func() {
 			for _, s := range r.Stream {
 				verifrt.Log("trace %s", s)
@@ -125,13 +130,22 @@ func (el *EventLock) Body() func() {
 			}
 			op := opts[verifrt.Choose(len(opts))]
 			if op.answer != "" {
+				var res map[string]any
+				if el.Results != nil {
+					res = el.Results(visits[op.answer], op.answer)
+					visits[op.answer]++
+				}
 				for i, t := range m.Pending {
 					if t.At.ID == op.answer {
-						m.Answer(i, nil)
+						m.Answer(i, res)
 						break
 					}
 				}
-				r.Answer(r.Pending(op.answer))
+				if res != nil {
+					r.Answer(r.Pending(op.answer), bpmn.DoWithResults(res))
+				} else {
+					r.Answer(r.Pending(op.answer))
+				}
 				history = append(history, op.answer)
 				continue
 			}
